@@ -76,7 +76,8 @@ def run(prop, tier, seed, replay=None):
                        rule="isprime/nextprime/prevprime: every n in [-70, 2^16+64) plus a 64-bit grid (2^k +- 40, strong pseudoprimes, Carmichael "
                             "numbers, p*q near 2^32/2^64, random); factorisation: every n in [-40, 2500) (thorough 20000), products of small primes "
                             "with multiplicity, semiprimes, prime powers, negatives, each through set, set(Lf,n), factor, iffactorprime, primefactor, divisors and (sub-sampled) "
-                            "set with loops in {1,2,3,7,40,5000}; isprimepower: every n in [-300, 70000) and p^e grids; "
+"set with loops in {1,2,3,7,40,5000}, and (sub-sampled) with PRE-FILLED output containers (result for another m plus junk: divinto, setinto, "
+                            "set1into, eratinto, writeinto; divisors also with the output list aliasing the factor list); isprimepower: every n in [-300, 70000) and p^e grids; "
                             "distinct = distinct (operation, argument); non-trivial = argument outside {0,1}",
                        extra={"lines_per_operation": keys})
     V.finish()
